@@ -300,4 +300,17 @@ def systematic_algebra():
                 ["sub", ["AnyBetween", s_, p1], ["chr", p1]], ["sub", ["AnyBetween", s_, p2], ["AnyFrom", s_, p2]],
                 ["or", ["AnyButFrom", s_], ["AnyButBetween", m2, m1]], ["sub", ["AnyButBetween", m2, p2], ["AnyButFrom", s_]],
                 ["sub", ["chr", s_], ["AnyFrom", s_, p1]], ["sub", ["AnyFrom", s_], ["chr", s_]]]
+    # every pairing of operand kinds under | and -, in both orders: the exception paths and the Any / global-word rules
+    kinds = [["Any"], ["named", "AnyDigit"], ["AnyFrom", "a", "5"], ["named", "AnyButDigit"], ["AnyButFrom", "a", "5"],
+             ["named", "AnyWordChar", True], ["named", "AnyButWordChar", True], ["chr", "5"], ["tok", "Newline"], ["lit", "5"],
+             ["named", "AnyWordChar"], ["AnyBetween", "0", "9"]]
+    for a in kinds:
+        for b in kinds:
+            if a[0] in ("chr", "tok", "lit") and b[0] in ("chr", "tok", "lit"):
+                continue                              # no class operand: not a pregex call
+            out.append(["or", a, b])
+            out.append(["sub", a, b])
+        if a[0] not in ("chr", "tok", "lit"):
+            out.append(["inv", a])
+            out.append(["inv", ["inv", a]]) if a != ["Any"] else None
     return out
